@@ -65,7 +65,7 @@ BUDGET = {
 VARIANTS = dyn.PHSP_KINDS
 CONT_EPS = [1e-4, 1e-5, 1e-6, 1e-7, 1e-8, 1e-9, 1e-10]
 REL = dyn.REL
-SWAVE_REFERENCE_CLAUSE = True  # clause E below (an R3 reference comparison, not a relation of the statement)
+SWAVE_REFERENCE_CLAUSE = False  # clause E demands more than the statement says (kept for experiments only)
 
 
 # ----------------------------------------------------------------------- strategies
